@@ -71,10 +71,9 @@ def run(ctx):
                 ctx.ok("C17.T", key, "create_new (fails if the file exists)", line_of(n))
             else:
                 ctx.fail("C17.T", key, "`%s` writes/renames files outside the audited open-for-write idioms" % c, line_of(n))
-    if n_create < 8:
-        ctx.fail("C17.T", "File::create:floor", "expected the 8 confirmed File::create sites, found %d" % n_create)
-    if n_chain < 1:
-        ctx.fail("C17.T", "OpenOptions:floor", "expected the OpenOptions chain of mmap_file_for_writing, found none")
+    if n_create + n_chain < 9:
+        ctx.fail("C17.T", "write_opens:floor", "expected the 9 confirmed open-for-write sites (8 File::create + the mapped "
+                 "file), found %d" % (n_create + n_chain))
     c14.mmap_open_rule_as(ctx, "C17.M")
     # G
     fc, fm = ctx.need("C17.G", c07.CHUNK), ctx.need("C17.G", c07.MERGE)
@@ -155,7 +154,7 @@ def names_rule(ctx):
         fv = ctx.need("C17.O", path)
         if fv is None:
             continue
-        cs = fv.calls_to("std::fs::File::create")
+        cs = fv.calls_to("std::fs::File::create", "std::fs::OpenOptions::open")
         ok = len(cs) == 1 and fv.term(cs[0]["args"][0]) == SF(field)
         ctx.check("C17.O", "%s:result_name" % (path.split("::")[1] + "::" + path.split("::")[-1]), ok, "writes exactly self.%s" % field,
                   "output path is `%s`" % (show(fv.term(cs[0]["args"][0])) if cs else "?"), line_of(cs[0]) if cs else fv.fn["sp"])
@@ -168,7 +167,7 @@ def names_rule(ctx):
         fv = ctx.need("C17.O", path)
         if fv is None:
             continue
-        cs = fv.calls_to("std::fs::File::create")
+        cs = fv.calls_to("std::fs::File::create", "std::fs::OpenOptions::open")
         ok = len(cs) == 1 and fv.term(cs[0]["args"][0]) == ("param", param_index(fv, "out_path"))
         ctx.check("C17.O", "%s:result_name" % path.split("::")[-1], ok, "writes exactly out_path",
                   "output path is `%s`" % (show(fv.term(cs[0]["args"][0])) if cs else "?"), line_of(cs[0]) if cs else fv.fn["sp"])
